@@ -75,6 +75,77 @@ theorem joseph_valid_for_any_gain {m n : Nat} (H : QMat m n) (P : QMat n n) (Q S
   refine ⟨h, ?_⟩
   have := h.isHermitian; rwa [IsHermitian, conjTranspose_eq_transpose_of_trivial] at this
 
+/-- **The function the driver runs (Joseph-form `sensorUpdateJ`, the code's shape) returns exactly what the specification-shaped
+`sensorUpdate` returns** — same refusal of a wrong certificate, same decision, same state, same covariance. -/
+theorem sensorUpdateJ_eq {m n : Nat} (filtering : Option Rat) (H : QMat m n) (P : QMat n n) (Q Sinv : QMat m m)
+    (x : Fin n → Rat) (z hx : Fin m → Rat) :
+    sensorUpdateJ filtering H P Q Sinv x z hx = sensorUpdate filtering H P Q Sinv x z hx := by
+  unfold sensorUpdateJ sensorUpdate
+  by_cases hc : ((innovCov H P Q).mul Sinv).eqb QMat.one = true
+  · simp only [hc, if_true]
+    rw [joseph_eq_updCov H P Q Sinv (QMat.eq_of_eqb hc)]
+  · simp [hc]
+
+/-- weaker demand on the operations than `OpOk`: the reading noise only has to be positive SEMI-definite -/
+def OpOkJ {n : Nat} : CovOp n → Prop
+  | .predict _ _ M => M.toMatrix.PosSemidef
+  | .update _ Q _ _ => Q.toMatrix.PosSemidef
+
+theorem stepJ_psd {n : Nat} (P : QMat n n) (op : CovOp n) (hP : P.toMatrix.PosSemidef) (hop : OpOkJ op) :
+    (covStepJ P op).toMatrix.PosSemidef := by
+  cases op with
+  | predict G V M =>
+    simp only [covStepJ]; rw [predictCov_toMatrix]; exact Mat.predict_psd _ _ _ _ hP hop
+  | update H Q Sinv rej =>
+    cases rej with
+    | true => simpa [covStepJ] using hP
+    | false =>
+      simp only [covStepJ, Bool.false_eq_true, if_false]
+      exact (joseph_valid_for_any_gain H P Q Sinv hP hop).1
+
+/-- **C09 for the history as the filters run it.** With the Joseph-form update the invariant needs NO inverse certificate: after any
+finite history of predictions and updates — whatever matrix the filter used for `S⁻¹` (singular `S`, an inverse spoiled by
+rounding, …), reading noise merely positive semi-definite — the covariance is symmetric positive semi-definite. -/
+theorem invariantJ {n : Nat} (ops : List (CovOp n)) :
+    ∀ (P : QMat n n), P.toMatrix.PosSemidef → (∀ op ∈ ops, OpOkJ op) →
+      (covRunJ P ops).toMatrix.PosSemidef ∧ (covRunJ P ops).toMatrixᵀ = (covRunJ P ops).toMatrix := by
+  induction ops with
+  | nil =>
+    intro P hP _
+    refine ⟨hP, ?_⟩
+    have := hP.isHermitian; rwa [IsHermitian, conjTranspose_eq_transpose_of_trivial] at this
+  | cons op rest ih =>
+    intro P hP hops
+    simp only [covRunJ, List.foldl_cons]
+    exact ih (covStepJ P op) (stepJ_psd P op hP (hops op (by simp))) (fun o ho => hops o (by simp [ho]))
+
+/-- whenever the certified run of the property's update (`covRun`) goes through, the filters' run (`covRunJ`) computes the same
+covariance — the two histories are the same function on certified inputs -/
+theorem covRunJ_eq_covRun {n : Nat} (ops : List (CovOp n)) :
+    ∀ (P P' : QMat n n), covRun P ops = some P' → covRunJ P ops = P' := by
+  induction ops with
+  | nil => intro P P' h; simpa [covRun, covRunJ] using h
+  | cons op rest ih =>
+    intro P P' h
+    simp only [covRun] at h
+    cases hs : covStep P op with
+    | none => simp [hs] at h
+    | some P₁ =>
+      simp only [hs, Option.bind_some] at h
+      have h1 : covStepJ P op = P₁ := by
+        cases op with
+        | predict G V M => simpa [covStep, covStepJ] using hs
+        | update H Q Sinv rej =>
+          simp only [covStep] at hs
+          split at hs
+          · rename_i hc
+            injection hs with hs
+            simp only [covStepJ]
+            rw [joseph_eq_updCov H P Q Sinv (QMat.eq_of_eqb hc)]; exact hs
+          · cases hs
+      simp only [covRunJ, List.foldl_cons, h1]
+      exact ih P₁ P' h
+
 /-- the run never gets stuck on a prediction (the model has no "refuse" branch there) -/
 theorem predict_total {n c : Nat} (P : QMat n n) (G : QMat n n) (V : QMat n c) (M : QMat c c) :
     (covStep P (.predict G V M)).isSome := rfl
@@ -90,5 +161,10 @@ example :
 the Joseph form stays positive semi-definite -/
 example : (updCov (m := 1) (n := 1) QMat.one (QMat.ofFn fun _ _ => 2) QMat.one).toLists = [[-2]] ∧
     (updCovJoseph (m := 1) (n := 1) QMat.one (QMat.ofFn fun _ _ => 2) QMat.one QMat.one).toLists = [[6]] := by decide +kernel
+
+/-! non-vacuity for `invariantJ`: a history with a wrong inverse AND a singular (zero) reading noise still ends in a valid covariance -/
+example : (covRunJ (n := 1) (QMat.ofFn fun _ _ => 2)
+    [.update (m := 1) QMat.one (QMat.ofFn fun _ _ => 0) QMat.one false,
+     .predict (c := 1) QMat.one QMat.one QMat.one]).toLists = [[3]] := by decide +kernel
 
 end FormakVerif.C09
